@@ -67,6 +67,9 @@ def gen_cases(tier, seed):
             cases.append({"kind": "comments", "variant": i, "rep": rep})
         for i in range(4):
             cases.append({"kind": "metadata", "variant": i, "rep": rep})
+        for kind in KINDS:
+            for entry in ENTRY:
+                cases.append({"kind": "shape", "dkind": kind, "entry": entry, "rep": rep})
     return cases
 
 
@@ -180,10 +183,76 @@ def run_case(case, rec):
     rng = random.Random(case["seed"])
     d = tempfile.mkdtemp(prefix="gvm_")
     try:
-        {"numeric": do_numeric, "strings": do_strings, "valuemap": do_valuemap, "blob": do_blob, "comments": do_comments, "metadata": do_metadata}[case["kind"]](case, rec, rng, d)
+        {"shape": do_shape, "numeric": do_numeric, "strings": do_strings, "valuemap": do_valuemap, "blob": do_blob, "comments": do_comments, "metadata": do_metadata}[case["kind"]](case, rec, rng, d)
     finally:
         shutil.rmtree(d, ignore_errors=True)
         gc.collect()
+
+
+def do_shape(case, rec, rng, d):
+    """An array with more entries than the geometry has elements is rejected, whatever its shape; one with exactly as many is
+    stored entry for entry, never more."""
+    from geoh5py.objects import Curve
+    from geoh5py.workspace import Workspace
+
+    kind, entry = case["dkind"], case["entry"]
+    n = 6
+    path = os.path.join(d, "s.geoh5")
+    ws = Workspace.create(path)
+    obj = Curve.create(ws, vertices=np.arange(3 * n, dtype=float).reshape(n, 3), name="c")  # n vertices, n - 1 cells
+    dt = {"float": float, "integer": "int32", "referenced": "int32", "boolean": bool}[kind]
+    extra = {"integer": {"type": "integer"}, "referenced": {"type": "referenced", "value_map": {1: "a", 2: "b"}}}.get(kind, {})
+
+    def make(count):
+        base = (np.arange(count) % 2 + 1)
+        return (base.astype(dt) if kind != "boolean" else (base == 1))
+
+    shapes = [("2-D (n, 2)", lambda m: make(2 * m).reshape(m, 2), True), ("2-D (n, 3)", lambda m: make(3 * m).reshape(m, 3), True), ("1-D n + 1", lambda m: make(m + 1), True),
+              ("1-D 2n", lambda m: make(2 * m), True), ("2-D (n, 1)", lambda m: make(m).reshape(m, 1), False), ("2-D (1, n)", lambda m: make(m).reshape(1, m), False), ("1-D n", lambda m: make(m), False)]
+    seen = []
+    for assoc, m in (("VERTEX", n), ("CELL", n - 1)):
+        for label, build_arr, too_many in shapes:
+            arr = build_arr(m)
+            name = f"{assoc[0]}{len(seen)}"
+            target = None
+            err = None
+            try:
+                if entry == "add_data":
+                    target = obj.add_data({name: {"values": arr, "association": assoc, **extra}})
+                else:
+                    target = obj.add_data({name: {"values": make(m), "association": assoc, **extra}})
+                    target.values = arr
+            except Exception as exc:  # noqa: BLE001
+                if not exc_origin(exc)[0]:
+                    raise
+                err = exc
+            seen.append((assoc, label, err is None))
+            rec.see("shape-cells")
+            if too_many:
+                if err is not None:
+                    rec.see("rejected-as-required")
+                    continue
+                held = None if target is None or target.values is None else len(np.ravel(target.values))
+                rec.check("C08.silently-altered", False, op=entry, cls=kind, attr=f"too-many-entries:{label}", detail=f"{arr.size} entries given for {m} {assoc.lower()} elements ({label}) were accepted; the data now holds {held} entries")
+            elif err is None and target is not None:
+                held = None if target.values is None else len(np.ravel(target.values))
+                rec.check("C08.roundtrip", held == m, op=entry + ":live", cls=kind, attr=f"shape:{label}", detail=f"{label} with {m} entries for {m} elements is held as {held} entries")
+    uid = obj.uid
+    ws.close()
+    with Workspace(path, mode="r") as ws2:
+        o2 = ws2.get_entity(uid)[0]
+        for c in o2.children:
+            if not hasattr(c, "values") or c.name == "Visual Parameters":
+                continue
+            try:
+                v = c.values
+                cnt = o2.n_vertices if c.association.name == "VERTEX" else o2.n_cells
+                rec.check("C08.roundtrip", v is None or len(v) == cnt, op=entry + ":reopened", cls=kind, attr="entry-count", detail=f"{c.name}: {None if v is None else len(v)} entries read back for {cnt} elements")
+            except Exception as exc:  # noqa: BLE001
+                rec.fail("C08.roundtrip", op=entry + ":reopened", cls=kind, attr="unreadable", detail=f"{c.name} cannot be read back: {type(exc).__name__}: {exc}")
+    rec.nontrivial = True
+    rec.shape = ["shape", kind, entry]
+    rec.sample = {"kind": kind, "entry": entry, "shapes": seen[:8]}
 
 
 def do_numeric(case, rec, rng, d):
@@ -415,6 +484,37 @@ def do_valuemap(case, rec, rng, d):
         rawd = {int(kv[0]): (kv[1].decode() if isinstance(kv[1], bytes) else str(kv[1])) for kv in raw.tolist()} if raw is not None else None
         rec.check("C08.raw", rawd == want and raw.dtype.names == ("Key", "Value"), op="value_map", cls="referenced", attr=f"map-{v}", detail=f"'Value map' dataset {rawd} expected {want}")
         ws2.close()
+        # a later session logs one more unit: the label is added to the map in place, then the map is stored again
+        ws3 = Workspace(path, mode="r+")
+        e = ws3.get_entity(uid)[0]
+        new_key = max(k for k in want) + 1 if max(want) < 2**31 - 1 else 7
+        vmap = e.value_map
+        how = ["setitem-then-assign-copy", "setitem-then-assign-same", "assign-extended-dict"][case.get("rep", 0) % 3 if "rep" in case else v % 3]
+        label = "ajouté ü"
+        try:
+            if how == "assign-extended-dict":
+                e.entity_type.value_map = {**{k: x for k, x in want.items()}, new_key: label}
+            else:
+                vmap[new_key] = label
+                e.entity_type.value_map = dict(vmap()) if how == "setitem-then-assign-copy" else vmap
+            edited = True
+        except Exception as exc:  # noqa: BLE001
+            if not exc_origin(exc)[0]:
+                raise
+            edited = False
+            rec.see("value-map-edit-refused:" + type(exc).__name__)
+        if edited:
+            want2 = {**want, new_key: label}
+            live2 = {int(k): x for k, x in dict(e.entity_type.value_map.map).items()}
+            rec.check("C08.roundtrip", live2 == want2, op="value_map:edited-live", cls="referenced", attr=how, detail=f"map after the edit {live2} expected {want2}")
+            ws3.close()
+            ws4 = Workspace(path, mode="r")
+            got2 = {int(k): x for k, x in dict(ws4.get_entity(uid)[0].entity_type.value_map.map).items()}
+            rec.check("C08.roundtrip", got2 == want2, op="value_map:edited-reopened", cls="referenced", attr=how, detail=f"label added in a later session ({how}): a fresh reader sees {got2}, expected {want2}")
+            ws4.close()
+            rec.see("value-map-edits")
+        else:
+            ws3.close()
     try:
         ws.close()
     except Exception:  # noqa: BLE001
